@@ -218,6 +218,46 @@ def treeSys (c : TreeCfg) (f : TreeFmt) : Sys TreeS where
   show_ := showTree
   cover := treeCover c
 
+/-! ### Hash set -/
+
+def showHSet (s : HSetS) : String :=
+  s!"[chains={s.chains} size={s.size} cap={s.cap} free={s.free} seq={s.seq}]"
+
+def hsetCover (hk : Nat) (s : HSetS) (op : String) (args : List Int) : List String :=
+  match op, args with
+  | "rem", [v] =>
+    if s.cap = 0 then [] else
+    let ch := s.chains.getD (s.bucket (hashOf hk) v.toNat) []
+    match ch.findIdx? (fun e => e.2 == v.toNat) with
+    | none => ["rem:absent"]
+    | some 0 => if ch.length == 1 then ["rem:only"] else ["rem:head"]
+    | some j => if j + 1 == ch.length then ["rem:tail"] else ["rem:middle"]
+  | "ins", [v] =>
+    if s.cap = 0 then [] else
+    let ch := s.chains.getD (s.bucket (hashOf hk) v.toNat) []
+    [s!"ins:chainlen{min ch.length 3}"]
+  | _, _ => []
+
+def hsetSys (hk : Nat) (f : HFmt) : Sys HSetS where
+  decode := fun bs =>
+    match f.ofBytes bs with
+    | none => .error "buffer is not header + whole records with zero padding"
+    | some img =>
+      match img.decode 0 with
+      | some s => .ok s
+      | none => .error "not the layout of any hash-set state (broken chain or free list, or a slot that is neither live, recycled nor never used)"
+  encode := fun s => if s.slots ≤ 64 then some (f.toBytes (s.image 0)) else none
+  step := hsetStep hk
+  trace := fun _ _ _ => none
+  absEq := fun a b =>
+    a.members.mergeSort == b.members.mergeSort && a.size == b.size && a.cap == b.cap
+  wf := fun s =>
+    (if s.seq = 0 || s.allocB then [] else ["alloc"]) ++
+    (if s.placedB (hashOf hk) then [] else ["placed"])
+  eq := fun a b => a == b
+  show_ := showHSet
+  cover := hsetCover hk
+
 def main : IO Unit := do
   let h ← IO.getStdin
   let first ← h.getLine
@@ -229,6 +269,10 @@ def main : IO Unit := do
     let val : Scalar := { size := cfgNat rest "vsz" 8, align := cfgNat rest "val" 8, signed := false }
     let (c, f) := if iw == 1 then (cfgU8, TreeFmt.u8 key val) else (cfgU32, TreeFmt.u32 key val)
     let r ← loop (treeSys c f) h {} 2
+    summary r
+  | "cfg" :: "hset" :: rest =>
+    let val : Scalar := { size := cfgNat rest "vsz" 8, align := cfgNat rest "val" 8, signed := false }
+    let r ← loop (hsetSys (cfgNat rest "hk" 8) { val := val }) h {} 2
     summary r
   | _ =>
     IO.println s!"M 1 parse unknown cfg line: {first}"
